@@ -5,6 +5,8 @@ from ..prog import params_of
 from ..report import AnalysisError
 from . import translate as T
 from .c13 import SYMBOLS
+from ..api import A
+from ..terms import tkey
 
 SDL = 'SimpleCircuit.dump_load'
 ELM = 'SimpleCircuit.Elements'
@@ -53,24 +55,17 @@ def run(rep, prog, tier):
     sm = prog.mod(SDL); em = prog.mod(ELM)
     classes = symbol_classes(prog)
     kinds = T.component_kinds(prog)
-    table = prog.table(SDL, 'simple_circuit_element_types')
+    table = loader_entries(prog)
     if len(table) < 12: rep.error(f'simple_circuit_element_types has {len(table)} entries (16 confirmed)')
     by_type = {typ: n for n, (c, typ, _, _) in classes.items() if typ}
-    for key, kn, vn in table:
-        site = prog.site(sm, vn)
-        # lambda **kwargs: module.Class(**kwargs) | module.Class(**combine_to_complex((a, b), z, kwargs))
-        call = vn.body if isinstance(vn, ast.Lambda) else None
-        cname = ast.unparse(call.func).split('.')[-1] if isinstance(call, ast.Call) else None
-        if cname not in classes:
-            rep.ob('R15.types', f'{key}', None, f'entry does not construct a symbol class: {ast.unparse(vn)[:80]}', site); continue
+    rebuilt = {}
+    for key, hv, site in table:
+        # the VALUE of the entry is applied the way undictify_element applies it: handler(name=..., reverse=..., **saved values)
+        cname, why = constructed_class(prog, hv, classes)
+        if cname is None:
+            rep.ob('R15.types', f'{key}', None, f'entry does not construct a symbol class: {why}', site); continue
         c, typ, params, required = classes[cname]
         rep.ob('R15.types', f'{key}', typ == key, f"constructs {cname} whose type is '{typ}'" + ('' if typ == key else f" -- a saved '{key}' element is rebuilt as another kind"), site)
-        # value keys available on reload: circuit_dict[name] = component.value of the translated kind
-        comb = None
-        for n in ast.walk(call):
-            if isinstance(n, ast.Call) and ast.unparse(n.func).split('.')[-1] == 'combine_to_complex' and len(n.args) >= 2:
-                try: comb = (ast.literal_eval(n.args[0]), ast.literal_eval(n.args[1]))
-                except Exception: comb = None
         spec = SYMBOLS.get(cname)
         if spec is None:
             if cname in ('Line',): rep.ob('R15.values', key, True, 'wire: no values', site)
@@ -79,23 +74,22 @@ def run(rep, prog, tier):
             else: rep.ob('R15.values', key, None, f'no component kind known for {cname}', site)
             continue
         kind = spec[0]
-        written = set(kinds.get(kind, {}).get('written', {}))
-        avail = set(written)
-        if comb:
-            (a, b), z = comb
-            if a in avail or b in avail:
-                avail -= {a, b}; avail.add(z)
-            else:
-                rep.ob('R15.values', f'{key}:combine', False, f"combine_to_complex(({a!r}, {b!r}) -> {z!r}) but kind '{kind}' writes {sorted(written)}", site)
-        missing = [p for p in required if p not in avail and p not in ('name', 'reverse')]
-        # periodic kinds carry wavetype etc. which the symbol does not take: extra keys are passed as **kwargs to schemdraw -- only requireds matter
-        rep.ob('R15.values', key, not missing, f"{cname}({', '.join(required)}) rebuilt from value keys {sorted(avail)}" + ('' if not missing else f' -- missing {missing}: reload raises TypeError'), site)
+        written = sorted(kinds.get(kind, {}).get('written', {}))
+        # reload with exactly the saved keys of that kind: a required constructor parameter that none of them provides is a TypeError
+        sym, err = rebuild(prog, hv, {k: A(k) for k in ['name', 'reverse'] + written}, strict=True)
+        if err is not None and err[0] == 'TypeError':
+            rep.ob('R15.values', key, False, f"{cname} rebuilt from the saved keys {written} of kind '{kind}': reload raises TypeError ({err[1]})", site)
+        elif err is not None or sym is None or 'missing-arg' in repr(tkey(sym)):
+            rep.ob('R15.values', key, None, f'reload with the saved keys {written} not followed: {err or sym!r:.120}', site)
+        else:
+            rep.ob('R15.values', key, True, f"{cname}({', '.join(required)}) rebuilt from the saved keys {written} of kind '{kind}'", site)
+            rebuilt[key] = (cname, written)
     for typ, cname in sorted(by_type.items()):
         if cname in ('Lamp', 'Switch', 'LabeledLine', 'Node', 'LabelNode', 'RealCurrentSource', 'RealVoltageSource', 'TriangleVoltageSource', 'TriangleCurrentSource', 'SawtoothVoltageSource', 'SawtoothCurrentSource'):
             continue    # not in the persistable set of C15's quantifier
         keys = {k for k, _, _ in table}
         rep.ob('R15.types', f'class:{cname}', typ in keys, f"type '{typ}' " + ('has a loader entry' if typ in keys else 'has NO loader entry: reloaded as a bare Element without values'), prog.site(em, classes[cname][0]))
-    roundtrip(rep, prog, classes, table)
+    roundtrip(rep, prog, classes, table, rebuilt)
     from .c20 import effects_of
     eff = effects_of(prog)
     for q, f in sorted(prog.funcs.items()):
@@ -113,28 +107,77 @@ def run(rep, prog, tier):
     handlers(rep, prog, classes)
 
 
-def roundtrip(rep, prog, classes, table):
+def loader_entries(prog):
+    """[(key, value term, site)] of simple_circuit_element_types -- the VALUES as the module builds them (lambdas, closures of a helper,
+    partials, callable objects alike)"""
+    from ..terms import Closure, Evaluator
+    sm = prog.mod(SDL)
+    tab = prog.table(SDL, 'simple_circuit_element_types')
+    ns = prog.module_namespace(sm)
+    values = ns.get('simple_circuit_element_types')
+    out = []
+    for key, kn, vn in tab:
+        hv = values.get(key) if isinstance(values, dict) else None
+        if hv is None and isinstance(vn, ast.Lambda): hv = Closure(vn, {'__parent__': None}, sm, 'λ')
+        if hv is None:
+            r = prog.resolve_expr(sm, vn)
+            hv = Evaluator(prog).ref_of(r) if r else None
+        out.append((key, hv, prog.site(sm, vn)))
+    return out
+
+
+def rebuild(prog, hv, kwargs, strict=False, real=()):
+    """(symbol record, None) of handler(**kwargs), or (None, (exception kind, detail)) when the call decidably raises"""
+    from ..terms import Evaluator, Rec, Raised, paths_of
+    sm = prog.mod(SDL)
+    ev = Evaluator(prog, real_atoms=set(real))
+    if hv is None: return None, ('?', 'handler value not followed')
+    if strict: ev._try_depth += 1
+    try:
+        t = ev.apply(hv, [], dict(kwargs), sm, 1)
+    except Raised as ex:
+        return None, (ex.kind, ex.detail)
+    finally:
+        if strict: ev._try_depth -= 1
+    if isinstance(t, Rec): return t, None
+    leaves = [l for _, l in paths_of(t)]
+    if leaves and all(isinstance(l, Rec) for l in leaves) and len({l.cls for l in leaves}) == 1: return leaves[0], None
+    return None, ('?', f'{t!r:.100}')
+
+
+def constructed_class(prog, hv, classes):
+    sym, err = rebuild(prog, hv, {'name': A('name'), 'reverse': A('reverse')})
+    if sym is None: return None, err[1]
+    if sym.cls not in classes: return None, f'constructs {sym.cls}'
+    return sym.cls, ''
+
+
+def roundtrip(rep, prog, classes, table, rebuilt):
     """reload feeds the SAVED component values back into the symbol constructor (together with the saved flags): translating the rebuilt
     symbol must reproduce the saved value, i.e. value[k](symbol(k = x, flags)) == x for every fed-back key on every flag combination"""
-    from ..api import A, call_ref
-    from ..terms import Evaluator, Poly, Rec, tkey, compare_terms, paths_of, as_poly
-    sm = prog.mod(SDL); em = prog.mod(ELM); tm = prog.mod('SimpleCircuit.CircuitComponentTranslators')
+    from ..api import call_ref
+    from ..terms import Rec, tkey, compare_terms, paths_of
+    em = prog.mod(ELM); tm = prog.mod('SimpleCircuit.CircuitComponentTranslators')
     tmap = {k: vn for k, kn, vn in prog.table('SimpleCircuit.CircuitComponentTranslators', 'circuit_translator_map')}
-    for key, kn, vn in table:
-        call = vn.body if isinstance(vn, ast.Lambda) else None
-        cname = ast.unparse(call.func).split('.')[-1] if isinstance(call, ast.Call) else None
-        if cname not in classes or cname not in tmap or cname not in SYMBOLS: continue
+    for key, hv, _ in table:
+        if key not in rebuilt: continue
+        cname, written = rebuilt[key]
+        if cname not in tmap: continue
         c, typ, params, required = classes[cname]
         site = prog.site(em, c)
         init = next((x for mm, cc in prog.mro(em, c) for x in cc.body if isinstance(x, ast.FunctionDef) and x.name == '__init__'), None)
         ann = {a.arg: ast.unparse(a.annotation) for a in (init.args.args + init.args.kwonlyargs if init is not None else []) if a.annotation is not None}
-        ev = Evaluator(prog, real_atoms={p_ for p_, t_ in ann.items() if t_ in ('float', 'int')})
-        kw = {p: A(p) for p in params if p not in ('args', 'kwargs')}
-        sym = ev.construct(ev.ref_of(('class', em, c)), [], kw, 1)
-        if not isinstance(sym, Rec):
-            rep.ob('R15.roundtrip', key, None, 'symbol construction not followed', site); continue
-        sym.f['is_reverse'] = A('reverse') if 'reverse' in kw else False
+        # the saved flags (deg, sin, ...) come back through the user parameters, the saved values through the circuit section
+        names = [p for p in params if p not in ('args', 'kwargs')] + [k for k in written if k not in params]
+        real = {p_ for p_, t_ in ann.items() if t_ in ('float', 'int')} | {k for k in written if k not in params}
+        sym, err = rebuild(prog, hv, {p: A(p) for p in names}, real=real)
+        if sym is None:
+            rep.ob('R15.roundtrip', key, None, f'symbol construction not followed: {err}', site); continue
+        from ..terms import Evaluator
+        ev = Evaluator(prog, real_atoms=real)
+        sym.f['is_reverse'] = A('reverse') if 'reverse' in names else False
         sym.f['name'] = A('name')
+        consumed = repr(tkey(sym))
         r = prog.resolve_expr(tm, tmap[cname])
         comp = call_ref(ev, r[1], r[2], [sym, A('nodes')])
         leaves = [l for _, l in paths_of(comp)]
@@ -143,73 +186,158 @@ def roundtrip(rep, prog, classes, table):
         val = comp.f['value'] if isinstance(comp, Rec) else None
         if val is None:
             rep.ob('R15.roundtrip', key, None, 'component value depends on a guard', site); continue
-        # which saved keys are fed back into which constructor parameter
-        comb = None
-        for n in ast.walk(call):
-            if isinstance(n, ast.Call) and ast.unparse(n.func).split('.')[-1] == 'combine_to_complex' and len(n.args) >= 2:
-                try: comb = (ast.literal_eval(n.args[0]), ast.literal_eval(n.args[1]))
-                except Exception: comb = None
         for k, got in sorted(val.items()):
-            if not isinstance(k, str): continue
-            if comb and k in comb[0]:
-                z = A(comb[1])
-                want = ev.fresh().npcall('real' if k == comb[0][0] else 'imag', [z], {})
-            elif k in kw: want = kw[k]
-            else: continue        # not a constructor parameter: passed through to schemdraw, not fed back
+            if not isinstance(k, str) or k not in names: continue
+            if repr(k) not in consumed: continue        # not taken by the constructor: passed through to schemdraw, not fed back
+            want = A(k)
             cmpv = compare_terms(got, want, total=True)
             rep.ob('R15.roundtrip', f'{key}:{k}', cmpv, (f"value['{k}'] of the rebuilt symbol = {got!r:.160}" + ('' if cmpv is True else
                    f" -- not the saved value `{k}`: each save / load cycle re-applies the conversion (degrees, sine reference)")), site, lhs=got, rhs=want)
 
 
+def _call_of(t, fname):
+    """argument keys of t when t is the call atom fname(args), else None"""
+    from ..terms import Poly
+    at = t.as_atom() if isinstance(t, Poly) else None
+    if isinstance(at, tuple) and len(at) == 4 and at[0] == 'call' and at[1] == ('fn', fname) and not at[3]: return at[2]
+    return None
+
+
+def _layers(t):
+    """the keyword dictionary handed to the loader entry, as [(guards, [layer, ...])]: x.update(d) adds a layer over x"""
+    from ..terms import Cond, Opq
+    if isinstance(t, Cond):
+        return [(g + ((tkey(t.g), True),), l) for g, l in _layers(t.a)] + [(g + ((tkey(t.g), False),), l) for g, l in _layers(t.b)]
+    if isinstance(t, Opq) and len(t.k) >= 3 and t.k[0] == 'mutated' and t.k[1] == 'update':
+        out = []
+        for g, l in _layers(t.k[2]): out.append((g, l + list(t.k[3:])))
+        return out
+    if isinstance(t, dict) and '**' in t and len(t) == 1: return _layers(t['**'])
+    return [((), [t])]
+
+
 def fields(rep, prog):
+    """what dictify_element writes is what undictify_element restores -- both read off their normal forms (the (de)serialisation of the single
+    schemdraw values is opaque here): the element record written for an element `e`, and the element rebuilt from a record with those keys"""
+    from ..terms import Evaluator, Rec, Opq, Poly, Cond
+    from ..api import call_ref
     sm = prog.mod(SDL)
     d = sm.defs.get('dictify_element'); u = sm.defs.get('undictify_element')
     if not isinstance(d, ast.FunctionDef) or not isinstance(u, ast.FunctionDef):
         rep.ob('R15.fields', 'dictify/undictify', None, 'functions not found'); return
-    written = {}
-    for n in ast.walk(d):
-        if isinstance(n, ast.Dict):
-            for k, v in zip(n.keys, n.values):
-                if isinstance(k, ast.Constant) and isinstance(k.value, str): written[k.value] = ast.unparse(v)
+    def mk():
+        ev = Evaluator(prog)
+        ev.opaque_fns.add((SDL, 'serialize_schemdraw_element')); ev.opaque_fns.add((SDL, 'deserialize_schemdraw_elements'))
+        return ev
+    ev = mk()
+    w = call_ref(ev, sm, d, [A('e')])
+    vals = w.f.get('values') if isinstance(w, Rec) else None
+    if not isinstance(vals, dict) or not all(isinstance(k, str) for k in vals):
+        rep.ob('R15.fields', 'dictify', None, f'element record not followed: {w!r:.120}', prog.site(sm, d)); return
+    attr_of = {}
+    for k, v in vals.items():
+        a_ = _call_of(v, 'serialize_schemdraw_element')
+        attr_of[k] = next((n for n in [k] + [x for x in vals if x != k] + ['_userparams'] if a_ and len(a_) == 1 and a_[0] == tkey(ev.getattr(A('e'), n, sm, 0))), None)
+        if attr_of[k] is None and a_ and len(a_) == 1:
+            at = term_atom(a_[0])
+            if isinstance(at, tuple) and len(at) == 3 and at[0] == '.' and at[1] == 'e': attr_of[k] = at[2]
+    okh = all(tkey(w.f.get(f_)) == tkey(ev.getattr(A('e'), a_, sm, 0)) for f_, a_ in (('type', 'type'), ('name', 'name'), ('reverse', 'is_reverse')))
+    rep.ob('R15.fields', 'head', okh, f"type / name / reverse written from e.type / e.name / e.is_reverse: {({k: w.f.get(k) for k in ('type', 'name', 'reverse')})!r:.160}", prog.site(sm, d))
+    # --- the element rebuilt from such a record (one concrete kind, so that the attribute stores on the rebuilt symbol are visible)
+    keys = [k for k, _, _ in loader_entries(prog)]
+    kind = 'resistor' if 'resistor' in keys else (keys[0] if keys else 'resistor')
+    record = lambda typ: {'type': typ, 'name': A('n'), 'reverse': A('r'), 'values': {k: A('v:' + k) for k in vals}}
+    ev = mk()
+    el = call_ref(ev, sm, u, [record(kind), A('circuit_dict')])
     restored = {}
-    ret_name = next((ast.unparse(r.value) for r in ast.walk(u) if isinstance(r, ast.Return) and isinstance(r.value, ast.Name)), 'element')
-    for st in ast.walk(u):
-        if isinstance(st, ast.Assign) and isinstance(st.targets[0], ast.Attribute) and ast.unparse(st.targets[0].value) == ret_name:
-            keys = [s.slice.value for s in ast.walk(st.value) if isinstance(s, ast.Subscript) and isinstance(s.slice, ast.Constant) and isinstance(s.slice.value, str) and s.slice.value != 'values']
-            restored[st.targets[0].attr] = keys[-1] if keys else None
-    up = [s.slice.value for s in ast.walk(u) if isinstance(s, ast.Subscript) and isinstance(s.slice, ast.Constant) and s.slice.value == '_userparams']
-    for fld, src in sorted(written.items()):
-        attr = src.split('(')[-1].rstrip(')').split('.')[-1]
+    if isinstance(el, Rec):
+        for a_, v in el.f.items():
+            c_ = _call_of(v, 'deserialize_schemdraw_elements')
+            if c_ and len(c_) == 1:
+                at = term_atom(c_[0])
+                if isinstance(at, str) and at.startswith('v:'): restored[a_] = at[2:]
+    # --- the keyword arguments of the loader entry (symbolic kind)
+    ev = mk()
+    t = call_ref(ev, sm, u, [record(A('t')), A('circuit_dict')])
+    disp = t if isinstance(t, Opq) and t.k and t.k[0] == 'dispatchcall' and len(t.k) == 5 else None
+    branches = _layers(disp.k[4]) if disp is not None and isinstance(disp.k[4], dict) and set(disp.k[4]) == {'**'} else None
+    up_key = None
+    for fld in sorted(vals):
+        attr = attr_of[fld]
         if fld == '_userparams':
-            rep.ob('R15.fields', fld, bool(up), 'user parameters are fed back to the constructor', prog.site(sm, u)); continue
-        ok = restored.get(attr) == fld or restored.get(fld) == fld
-        rep.ob('R15.fields', fld, ok, f"written from e.{attr}, restored to element.{attr if restored.get(attr) == fld else '?'}" if ok else f"field '{fld}' is written by dictify_element but not restored by undictify_element", prog.site(sm, u))
+            if branches is None: ok = None
+            else:
+                ok = all(l and _call_of(l[0], 'deserialize_schemdraw_elements') == (tkey(A('v:_userparams')),) for g, l in branches)
+            rep.ob('R15.fields', fld, ok, 'user parameters are fed back to the constructor', prog.site(sm, u)); continue
+        if not isinstance(el, Rec):
+            rep.ob('R15.fields', fld, None, f'rebuilt element not followed: {el!r:.100}', prog.site(sm, u)); continue
+        ok = attr is not None and restored.get(attr) == fld
+        rep.ob('R15.fields', fld, ok, f"written from e.{attr}, restored to element.{attr}" if ok else f"field '{fld}' is written by dictify_element (from e.{attr}) but not restored to element.{attr} by undictify_element", prog.site(sm, u))
     for attr, key in sorted(restored.items()):
-        if key not in written:
+        if key not in vals:
             rep.ob('R15.fields', f'restore:{attr}', False, f"undictify_element restores element.{attr} from '{key}', which dictify_element never writes", prog.site(sm, u))
-    # head fields: type / name / reverse
-    head = {k.arg: ast.unparse(k.value) for n in ast.walk(d) if isinstance(n, ast.Call) and ast.unparse(n.func) == 'SimpleCircuitObjectProperties' for k in n.keywords}
-    okh = head.get('type') == 'e.type' and head.get('name') == 'e.name' and head.get('reverse') == 'e.is_reverse'
-    rep.ob('R15.fields', 'head', okh, f'{head.keys() and {k: head[k] for k in ("type", "name", "reverse") if k in head}}', prog.site(sm, d))
-    p0 = u.args.args[0].arg; p1 = u.args.args[1].arg if len(u.args.args) > 1 else 'circuit_dict'
-    src = ast.unparse(u).replace(p0, 'element_dict').replace(p1, 'circuit_dict')
-    okr = "element_dict.get('name'" in src and "element_dict.get('reverse'" in src and "element_dict['type']" in src
+    if branches is None:
+        okr = okm = None
+    else:
+        def has(l, k, v): return any(isinstance(x, dict) and k in x and tkey(x[k]) == tkey(v) for x in l)
+        okr = tkey(disp.k[2]) == tkey(A('t')) and all(has(l, 'name', A('n')) and has(l, 'reverse', A('r')) for g, l in branches)
+        merged = tkey(ev.getitem(A('circuit_dict'), A('n')))
+        # the saved values of the element of that name are laid over the user parameters (on the branch where the circuit section has that name)
+        okm = any(any(tkey(x) == merged for x in l[1:]) for g, l in branches)
     rep.ob('R15.fields', 'head:restored', okr, 'name / reverse / type read back', prog.site(sm, u))
-    okm = "circuit_dict[element_dict['name']]" in src.replace('"', "'")
     rep.ob('R15.fields', 'values-merged-by-name', okm, 'circuit values are merged by element name', prog.site(sm, u))
-    # schemdraw serialiser / deserialiser type names
-    ser = prog.table(SDL, 'schemdraw_serializers'); des = prog.table(SDL, 'schemdraw_deserializers')
-    ser_objs = {ast.unparse(kn).split('.')[-1] for k, kn, vn in ser if 'schemdraw_object_properties' in ast.unparse(vn)}
-    des_objs = set()
-    for k, kn, vn in des:
-        s = ast.unparse(kn)
-        des_objs.add(s.replace('.__name__', '').replace('str(', '').rstrip(')').split('.')[-1])
-    rep.ob('R15.fields', 'schemdraw-types', ser_objs == des_objs and len(ser_objs) >= 5, f'serialised {sorted(ser_objs)} / deserialised {sorted(des_objs)}', prog.site(sm, sm.defs['schemdraw_deserializers']))
+    # schemdraw serialiser / deserialiser type names: an object written under type(x).__name__ of class K is rebuilt by the entry named K
+    ns = prog.module_namespace(sm)
+    ser = ns.get('schemdraw_serializers'); des = ns.get('schemdraw_deserializers')
+    site_ = prog.site(sm, sm.defs['schemdraw_deserializers']) if 'schemdraw_deserializers' in sm.defs else ''
+    if not isinstance(ser, dict) or not isinstance(des, dict):
+        rep.ob('R15.fields', 'schemdraw-types', None, 'serialiser tables not followed', site_)
+    else:
+        ser_objs, des_objs, bad = set(), set(), []
+        for k, v in ser.items():
+            ev = Evaluator(prog)
+            r_ = ev.apply(v, [A('x')], {}, sm, 1)
+            if isinstance(r_, Rec) and 'type' in r_.f and 'values' in r_.f:
+                nm = getattr(getattr(k, 'v', k), 'name', None)
+                if nm is None: bad.append(f'{k!r:.40}'); continue
+                ser_objs.add(nm.split('.')[-1])
+        for k, v in des.items():
+            if not isinstance(k, str): bad.append(f'{k!r:.40}'); continue
+            des_objs.add(k.split('.')[-1])
+            ev = mk()
+            r_ = ev.apply(v, [A('x')], {}, sm, 1)
+            at = r_.as_atom() if isinstance(r_, Poly) else None
+            built = at[1][1].split('.')[-1] if isinstance(at, tuple) and at[0] == 'call' and isinstance(at[1], tuple) and at[1][0] == 'ext' else None
+            if built is not None and built != k.split('.')[-1]: bad.append(f"'{k}' rebuilds {built}")
+        okt = None if bad and ser_objs == des_objs and not any('rebuilds' in b for b in bad) else (ser_objs == des_objs and len(ser_objs) >= 5 and not bad)
+        rep.ob('R15.fields', 'schemdraw-types', okt, f'serialised {sorted(ser_objs)} / deserialised {sorted(des_objs)}' + (f' -- {bad}' if bad else ''), site_)
     # document layout
     da = sm.defs.get('dictify_all'); us = sm.defs.get('undictify_schematic')
-    okd = isinstance(da, ast.FunctionDef) and "'circuit'" in ast.unparse(da) and "'simple_circuit'" in ast.unparse(da)
-    oku = isinstance(us, ast.FunctionDef) and "['circuit']['components']" in ast.unparse(us) and "['simple_circuit']" in ast.unparse(us)
-    rep.ob('R15.fields', 'document', bool(okd and oku), "document = {'circuit', 'simple_circuit'} on both sides", prog.site(sm, da or sm.tree))
+    okd = None
+    if isinstance(da, ast.FunctionDef) and isinstance(us, ast.FunctionDef):
+        ev = mk(); ev.opaque_fns.update({(SDL, 'schematic_to_dict'), ('Circuit.dump_load', 'dictify_circuit'), ('SimpleCircuit.DiagramTranslator', 'circuit_translator')})
+        doc = call_ref(ev, sm, da, [A('schematic')])
+        read = set()
+        seen_f, todo = set(), [us]
+        while todo:
+            f_ = todo.pop()
+            if id(f_) in seen_f: continue
+            seen_f.add(id(f_))
+            for n in ast.walk(f_):
+                if isinstance(n, ast.Subscript) and isinstance(n.slice, ast.Constant) and isinstance(n.slice.value, str): read.add(n.slice.value)
+                if isinstance(n, ast.Call) and isinstance(n.func, ast.Attribute) and n.func.attr == 'get' and n.args and isinstance(n.args[0], ast.Constant) and isinstance(n.args[0].value, str): read.add(n.args[0].value)
+                if isinstance(n, ast.Call) and isinstance(n.func, ast.Name) and n.func.id.startswith('_') and isinstance(sm.defs.get(n.func.id), ast.FunctionDef): todo.append(sm.defs[n.func.id])
+        if isinstance(doc, dict) and all(isinstance(k, str) for k in doc):
+            okd = set(doc) == {'circuit', 'simple_circuit'} and {'circuit', 'simple_circuit', 'components'} <= read
+    rep.ob('R15.fields', 'document', okd, "document = {'circuit', 'simple_circuit'} on both sides", prog.site(sm, da or sm.tree))
+
+
+def term_atom(k):
+    """the atom of a key that is a single atom, else None"""
+    from ..terms import term_from_key, Poly
+    try: t = term_from_key(k)
+    except Exception: return None
+    return t.as_atom() if isinstance(t, Poly) else None
 
 
 def handlers(rep, prog, classes):
